@@ -148,12 +148,12 @@ def check_wiring(report, lib: Lib):
                 r3.check(not fg, *cm.where(), f"from_gapic on non-LRO method {cm.name}", "only annotated LROs get futures; others return the raw response")
     m = pm()
     co = m.func("gapic.schema.wrappers.Method._client_output")
-    ifs = [n for n in co.node.body if isinstance(n, ast.If) and ast.unparse(n.test) == "self.lro"]
+    from ..pymodel import nreturn, ladder
     r3.instance("_client_output lro arm")
-    ok = len(ifs) == 1
-    if ok:
-        src = ast.unparse(ifs[0])
-        ok = ("'AsyncOperation' if" in src and "'operation_async' if" in src and "('google', 'api_core')" in src)
+    e = nreturn(m, co)
+    arms = [ast.unparse(v) for t, v in (ladder(e) if e is not None else []) if t is not None and ast.unparse(t) == "self.lro"]
+    ok = len(arms) == 1 and ("'AsyncOperation' if enable_asyncio else 'Operation'" in arms[0] and "'operation_async' if enable_asyncio else 'operation'" in arms[0]
+                             and "('google', 'api_core')" in arms[0])
     r3.check(ok, co.module.path, co.node.lineno, "_client_output LRO type", "LRO output type must be google.api_core operation(.async) Operation / AsyncOperation")
 
 
